@@ -106,6 +106,7 @@ def gen_requests(rng, routes, n_per_route, tmp):
         dict(method="GET", target="/admin/users//", headers={"Authorization": ["Bearer"]}, body="", cred="none"),
         dict(method="GET", target="/ui", headers={"Accept": [";,;;q"]}, body="", cred="none"),
     ]
+    nfixed = len(reqs)
     for ep, method in routes:
         if "down" in ep or "shutdown" in ep:
             creds = ["none", "user", "badbasic", "bearer-junk", "bearer-user"]     # never stop the harness process
@@ -148,6 +149,11 @@ def gen_requests(rng, routes, n_per_route, tmp):
             if body and rng.random() < 0.15:
                 body = body[:rng.randint(0, len(body))]
             reqs.append(dict(method=m, target=path, headers=hd, body=hx(body), cred=rng.choice(creds)))
+    # the time budget may cut the tail off on a slow machine: spread the routes over the whole list
+    head = reqs[:nfixed]
+    tail = reqs[nfixed:]
+    rng.shuffle(tail)
+    reqs = head + tail
     for i, r in enumerate(reqs):
         r["id"] = i
     return reqs
